@@ -278,7 +278,10 @@ class Batch(object):
 
     def steer_for(self, i):
         # A fixed handful of runs per batch re-confirm the known findings.
-        if self.unsteered_every and i % self.unsteered_every == self.unsteered_every - 1:
+        # Steering only exists to look past open known findings.
+        if not self.unsteered_every:
+            return False
+        if i % self.unsteered_every == self.unsteered_every - 1:
             return False
         return True
 
